@@ -35,7 +35,7 @@ from geometer.point import (
     infty_plane,
     join,
 )
-from geometer.transformation import rotation, translation
+from geometer.transformation import translation
 from geometer.utils import adjugate, det, hat_matrix, inv, is_multiple, matmul, matvec, outer, roots
 
 if TYPE_CHECKING:
@@ -660,7 +660,7 @@ class Cone(Quadric):
         if radius == 0:
             raise ValueError("The radius of a cone can not be zero.")
 
-        from geometer.operators import angle, dist
+        from geometer.operators import dist
 
         h = dist(vertex, base_center)
         c = (radius / h) ** 2
@@ -668,32 +668,27 @@ class Cone(Quadric):
         if np.isinf(h):
             # cone with vertex at infinity is a cylinder with the center of the base as center
             v = base_center.normalized_array
+            a = vertex.array[:-1]
         else:
             v = vertex.normalized_array
+            a = base_center.normalized_array[:-1] - v[:-1]
 
-        # first build a cone with axis parallel to the z-axis
-        m = np.eye(4, dtype=np.promote_types(v.dtype, type(c)))
-        m[-1, :] = -v
-        m[:, -1] = -v
+        # the points x with y = x - v satisfy |y|^2 - (1 + c) <y, a>^2 = k for the unit vector a along the axis, i.e. the
+        # squared distance to the axis is c times the squared distance along the axis (plus radius^2 for a cylinder)
+        m = np.zeros((4, 4), dtype=np.promote_types(np.promote_types(v.dtype, a.dtype), type(c)))
 
         if np.isinf(c):
-            # if h == 0 the quadric becomes a circle
-            m[3, 3] = v[:3].dot(v[:3]) - radius**2
+            # if h == 0 the quadric becomes a sphere around the vertex
+            m[:3, :3] = np.eye(3)
+            m[3, 3] = -(radius**2)
         else:
-            m[2:, 2:] *= -c
-            m[3, 3] = v[:2].dot(v[:2]) - (radius**2 if np.isinf(h) else v[2] ** 2 * c)
+            a = a / np.linalg.norm(a)
+            m[:3, :3] = np.eye(3) - (1 + c) * outer(a, a)
+            m[3, 3] = -(radius**2) if np.isinf(h) else 0
 
-        # rotate the axis of the cone
-        v = Point(v, copy=False)
-        axis = Line(v, v + Point(0, 0, 1))
-        new_axis = Line(vertex, base_center)
-
-        if new_axis != axis:
-            a = angle(axis, new_axis)
-            e = axis.join(new_axis)
-            t = rotation(a, axis=Point(*e.array[:3]))
-            t = translation(v) * t * translation(-v)
-            m = t.array.T.dot(m).dot(t.array)
+        # move the vertex (or the center of the cylinder) from the origin to v
+        t = translation(*(-v[:-1])).array
+        m = t.T.dot(m).dot(t)
 
         kwargs["normalize_matrix"] = True
         super().__init__(m, **kwargs)
